@@ -6,6 +6,7 @@ import (
 	"go/token"
 	"go/types"
 	"sort"
+	"strconv"
 	"strings"
 
 	"golang.org/x/tools/go/packages"
@@ -367,7 +368,12 @@ func firstWrites(f *core.FuncInfo, n int) []string {
 			continue
 		}
 		if sel, ok := c.Fun.(*ast.SelectorExpr); ok && sel.Sel.Name == "WriteString" {
-			out = append(out, core.ExprString(c.Args[0]))
+			// a constant (literal or named) is rendered by its value, so that naming the separator changes nothing
+			if v := core.ConstVal(f.Pkg.TypesInfo, c.Args[0]); v != nil && v.Kind() == constant.String {
+				out = append(out, strconv.Quote(constant.StringVal(v)))
+			} else {
+				out = append(out, core.ExprString(c.Args[0]))
+			}
 			if len(out) == n {
 				break
 			}
